@@ -60,7 +60,28 @@ Why == IF Ev.ev = "Enc" /\ Known(Ev.type) THEN [c06 |-> C06(Ev), c07 |-> IF Ev.e
        ELSE [c06 |-> FALSE, c07 |-> FALSE, c08 |-> FALSE]
 
 \* known finding: a component schema that is a bare date-time becomes `type T time.Time`, which has no JSON methods
-KF == IF Known(Ev.type) /\ S(Ev.type).k = "datetime" THEN "codec-named-datetime" ELSE ""
+\* known finding: a nil inner slice of a nested inline array ([][]T) is encoded as null.  The selector is exact: the
+\* event is rejected by C07 only, and is accepted once every null that stands for an empty inner list is read as [].
+EmptyArrJ == [t |-> "arr", l |-> << >>, c |-> "[]"]
+RECURSIVE Unwrap(_)
+Unwrap(v) == IF v.t \in {"maybe", "nullable"} /\ v.set THEN Unwrap(v.m) ELSE v
+RECURSIVE PatchNil(_, _, _)
+PatchNil(s, v0, j) ==
+    LET v == Unwrap(v0) IN
+    CASE s.k = "array" /\ j.t = "arr" /\ v.t = "list" /\ Len(v.l) = Len(j.l) ->
+           [j EXCEPT !.l = [i \in DOMAIN j.l |->
+               IF s.items.k = "array" /\ ~s.items.nullable /\ j.l[i].t = "null" /\ v.l[i].t = "list" /\ Len(v.l[i].l) = 0 THEN EmptyArrJ
+               ELSE PatchNil(s.items, v.l[i], j.l[i])]]
+      [] s.k = "object" /\ j.t = "obj" /\ v.t = "struct" ->
+           [j EXCEPT !.m = [i \in DOMAIN j.m |->
+               IF j.m[i].k \in DeclaredNames(s) /\ HasField(Flatten(v), PropByName(s, j.m[i].k).nn)
+               THEN [k |-> j.m[i].k, v |-> PatchNil(PropByName(s, j.m[i].k).s, FieldOf(Flatten(v), PropByName(s, j.m[i].k).nn), j.m[i].v)]
+               ELSE j.m[i]]]
+      [] OTHER -> j
+KF == IF Known(Ev.type) /\ S(Ev.type).k = "datetime" THEN "codec-named-datetime"
+      ELSE IF Ev.ev = "Enc" /\ Known(Ev.type) /\ Ev.encOK /\ Ev.j.t # "invalid" /\ C06(Ev) /\ ~C07(Ev)
+              /\ C07([Ev EXCEPT !.j = PatchNil(S(Ev.type), Ev.v, Ev.j)]) THEN "c07-nested-array-nil-null"
+      ELSE ""
 
 Skip == /\ l <= Len(Trace) /\ ~ENABLED Step
         /\ PrintT(ToJson([verdict |-> "REJECT", case |-> Ev.case, at |-> l, event |-> [ev |-> Ev.ev, type |-> Ev.type], kf |-> KF, why |-> Why]))
